@@ -1,13 +1,884 @@
-//! C18: generators and executor (see DESIGN.md section 4, C18).
+//! C18: store copy, profile copy and Indy-SDK wallet migration carry over every record.
+//!
+//! Case kinds
+//! * `c18:copy`    — a source store built from a declarative spec (1–4 profiles, 0…100 records of both kinds per
+//!                   profile, arbitrary tags, some already expired), an optional pre-existing target store, one action
+//!                   (`copy_to` of `aries_askar::Store`, `copy_store` / `copy_profile` of `askar_storage::backend`), an
+//!                   optional statement fault on the j-th `INSERT INTO items` of the target; then full logical dumps.
+//! * `c18:indy`    — an Indy-SDK SQLite wallet written by the harness itself (independent writer of the format:
+//!                   RAW / ARGON2I_INT / ARGON2I_MOD master key, msgpack key record, per-item value keys, both tag
+//!                   tables), migrated by the real code, reopened with the wallet key and dumped.
+//! * `c18:fixture` — the shipped fixture `askar-storage/tests/indy_wallet_sqlite.db`, decoded independently,
+//!                   migrated, dumped, compared with the frozen dump in `/verif/corpus/C18/fixture_dump.json`.
+//!
+//! `out` is what the Lean model must reproduce; `oracle` is the property judged from the case spec alone.
+use crate::canon::{jerr, kind_of, tags_from_json, value_from_json, Rec, Tag};
+use crate::gen_store::{big_value, CATS, NAMES, TAG_NAMES, TAG_VALUES};
+use crate::rawsql::{RawDb, Val};
 use crate::rng::Rng;
+use crate::store_case::{cleanup, dump_profile, provision, scratch_dir};
+use aries_askar::Store;
+use askar_crypto::alg::chacha20::{Chacha20Key, C20P};
+use askar_crypto::buffer::SecretBytes;
+use askar_crypto::encrypt::KeyAeadInPlace;
+use askar_crypto::kdf::argon2::{Algorithm, Argon2, Params, Version};
+use askar_crypto::kdf::KeyDerivation;
+use askar_crypto::repr::KeySecretBytes;
+use askar_storage::any::AnyBackend;
+use askar_storage::backend::{copy_profile, copy_store, Backend, BackendSession, ManageBackend};
+use askar_storage::entry::EntryOperation;
+use askar_storage::future::block_on;
+use askar_storage::migration::IndySdkToAriesAskarMigration;
+use askar_storage::{PassKey, StoreKeyMethod};
 use serde_json::{json, Value};
+use std::collections::{BTreeMap, BTreeSet};
 
-/// generated cases for this property (each a JSON object with "kind": "c18…")
-pub fn gen(_r: &mut Rng, _thorough: bool, _count: Option<usize>) -> Vec<Value> {
-    vec![]
+const RAW_TARGET_KEY: &str = "4pQ8L3cXHcHvLeJNWiYV6cTQbKU3thT1u1ZdbqMrhTdC";
+const KDF_PASS: &str = "correct horse battery staple";
+const FIXTURE: &str = "/repo/askar-storage/tests/indy_wallet_sqlite.db";
+const FIXTURE_NAME: &str = "walletwallet.0";
+const FIXTURE_KEY: &str = "GfwU1DC7gEZNs3w41tjBiZYj7BNToDoFEqKY6wZXqs1A";
+
+fn verif_home() -> String { std::env::var("VERIF_HOME").unwrap_or_else(|_| "/verif".into()) }
+
+// =============================================================================================
+// Generators
+
+const PROFILES: &[&str] = &["p0", "p1", "p2", "", "ü-プロ", "P0"];
+
+fn gen_tags(r: &mut Rng) -> Value {
+    if r.chance(1, 10) { return Value::Null; }
+    let n = match r.below(7) { 0 => 0, 1 => 1, 2 => 2, 3 => 3, 4 => 5, 5 => 8, _ => 1 };
+    let mut v: Vec<Value> = (0..n)
+        .map(|_| json!([if r.chance(1, 3) { 1 } else { 0 }, *r.pick(TAG_NAMES), *r.pick(TAG_VALUES)]))
+        .collect();
+    if n > 1 && r.chance(1, 4) { let d = v[0].clone(); v.push(d); }
+    Value::Array(v)
 }
 
-/// run one case against the real code; returns {"out": …, "oracle": […], "feat": {…}}
-pub fn exec(_case: &Value, _tag: &str) -> Value {
-    json!({"out": {"err": "not implemented"}})
+fn gen_value(r: &mut Rng) -> Value {
+    match r.below(24) {
+        0 => json!(""),
+        1 => big_value(r),
+        2 => json!(hex::encode(r.bytes(300))),
+        _ => { let n = r.below(40); json!(hex::encode(r.bytes(n))) }
+    }
+}
+
+/// `n` records with pairwise distinct (kind, category, name); `expiring`: some already expired, some expiring tomorrow
+fn gen_recs(r: &mut Rng, n: usize, expiring: bool) -> Vec<Value> {
+    let mut seen = BTreeSet::new();
+    let mut out = vec![];
+    for i in 0..n {
+        let k = if r.chance(1, 3) { 1 } else { 2 };
+        let c = r.pick(CATS).to_string();
+        let mut nm = r.pick(NAMES).to_string();
+        if !seen.insert((k, c.clone(), nm.clone())) {
+            nm = format!("{}#{}", nm, i);
+            seen.insert((k, c.clone(), nm.clone()));
+        }
+        let e = if !expiring { Value::Null } else {
+            match r.below(8) { 0 => json!(-3_600_000i64), 1 => json!(-5_000i64), 2 => json!(86_400_000i64), _ => Value::Null }
+        };
+        out.push(json!({"k": k, "c": c, "n": nm, "v": gen_value(r), "t": gen_tags(r), "e": e}));
+    }
+    out
+}
+
+fn count_choice(r: &mut Rng, page: usize) -> usize {
+    let p = page;
+    *r.pick(&[0, 0, 1, 2, 5, p - 1, p, p + 1, 2 * p, 2 * p + 1, 3 * p + 4, 100, 7, 40])
+}
+
+fn gen_store_spec(r: &mut Rng, page: usize, nprof: usize, expiring: bool, small: bool) -> Value {
+    let mut names: Vec<String> = vec![];
+    while names.len() < nprof {
+        let n = r.pick(PROFILES).to_string();
+        if !names.contains(&n) { names.push(n); }
+    }
+    let profiles: Vec<Value> = names.iter().map(|n| {
+        let cnt = if small { r.below(4) } else { count_choice(r, page) };
+        json!({"name": n, "recs": gen_recs(r, cnt, expiring)})
+    }).collect();
+    json!({"default": names[0], "profiles": profiles, "set_default": null, "remove": []})
+}
+
+fn case(id: usize, page: usize, src: Value, dst: Value, action: Value, fault: Value, src_file: bool) -> Value {
+    json!({"kind": "c18:copy", "id": id, "page": page, "src": src, "src_file": src_file, "dst": dst, "action": action, "fault": fault})
+}
+
+pub fn gen(r: &mut Rng, thorough: bool, count: Option<usize>) -> Vec<Value> {
+    let page = crate::page_size().max(2);
+    let mult = if thorough { 12 } else { 1 };
+    let mut out: Vec<Value> = vec![];
+    let methods_q = ["raw", "none"];
+    let methods_t = ["raw", "none", "kdf:argon2i:int", "raw", "none", "kdf:argon2i:mod"];
+    let mut id = 0usize;
+    let mut push = |out: &mut Vec<Value>, mut c: Value| { c["id"] = json!(id); id += 1; out.push(c); };
+
+    // (a) whole-store copies onto a fresh target, every key method
+    for i in 0..(24 * mult) {
+        let mut rr = r.fork();
+        let nprof = 1 + rr.below(4);
+        let src = gen_store_spec(&mut rr, page, nprof, rr.chance(1, 2), false);
+        let method = if thorough { methods_t[i % methods_t.len()] } else { methods_q[i % 2] };
+        let via = if i % 3 == 0 { "copy_store" } else { "copy_to" };
+        let file = via == "copy_to" || rr.chance(1, 2);
+        let mut src = src;
+        // the default profile need not be the first one
+        if nprof > 1 && rr.chance(1, 3) {
+            let k = rr.below(nprof);
+            src["set_default"] = src["profiles"][k]["name"].clone();
+        }
+        push(&mut out, case(0, page, src, Value::Null, json!({"op": via, "method": method, "recreate": true, "file": file}), Value::Null, rr.chance(1, 3)));
+    }
+    // (b) profile copies into another store: new profile / existing empty / non-empty (refused) / only expired records
+    for i in 0..(10 * mult) {
+        let mut rr = r.fork();
+        let src = gen_store_spec(&mut rr, page, 1 + rr.below(2), rr.chance(1, 2), false);
+        let from = src["profiles"][rr.below(src["profiles"].as_array().unwrap().len())]["name"].clone();
+        let mut dst = gen_store_spec(&mut rr, page, 1 + rr.below(2), false, true);
+        let to: Value = match i % 5 {
+            0 => json!("fresh-profile"),
+            1 => { dst["profiles"][0]["recs"] = json!([]); dst["profiles"][0]["name"].clone() }
+            2 => { dst["profiles"][0]["recs"] = Value::Array(gen_recs(&mut rr, 1 + rr.below(3), false)); dst["profiles"][0]["name"].clone() }
+            3 => {
+                // logically empty: every record has expired; identities disjoint from the source's
+                let mut recs = gen_recs(&mut rr, 1 + rr.below(3), false);
+                for (j, x) in recs.iter_mut().enumerate() { x["e"] = json!(-3_600_000i64); x["n"] = json!(format!("expired-{}", j)); }
+                dst["profiles"][0]["recs"] = Value::Array(recs);
+                dst["profiles"][0]["name"].clone()
+            }
+            _ => json!("missing-source"),
+        };
+        let (from, to) = if i % 5 == 4 { (json!("no-such-profile"), json!("fresh-profile")) } else { (from, to) };
+        push(&mut out, case(0, page, src, dst, json!({"op": "copy_profile", "from": from, "to": to, "same": false, "method": methods_q[i % 2]}), Value::Null, rr.chance(1, 2)));
+    }
+    // (c) profile copies inside one file-backed store
+    for i in 0..(6 * mult) {
+        let mut rr = r.fork();
+        let src = gen_store_spec(&mut rr, page, 2, rr.chance(1, 3), false);
+        let from = src["profiles"][0]["name"].clone();
+        let to = match i % 3 { 0 => json!("fresh-profile"), 1 => src["profiles"][1]["name"].clone(), _ => from.clone() };
+        let mut src = src;
+        if i % 6 == 1 { src["profiles"][1]["recs"] = json!([]); }
+        push(&mut out, case(0, page, src, Value::Null, json!({"op": "copy_profile", "from": from, "to": to, "same": true}), Value::Null, true));
+    }
+    // (d) a statement fault on the j-th item insert of the import (file-backed, pre-provisioned target)
+    for i in 0..(8 * mult) {
+        let mut rr = r.fork();
+        let nprof = 1 + rr.below(3);
+        let mut src = gen_store_spec(&mut rr, page, nprof, false, false);
+        let total: usize = src["profiles"].as_array().unwrap().iter().map(|p| p["recs"].as_array().unwrap().len()).sum();
+        if total == 0 { src["profiles"][0]["recs"] = Value::Array(gen_recs(&mut rr, page + 3, false)); }
+        let total = total.max(page + 3);
+        let j = match i % 4 { 0 => 0, 1 => total - 1, 2 => rr.below(total), _ => rr.below(total + 3) };
+        let dst = json!({"default": src["default"], "profiles": [{"name": src["default"], "recs": []}], "set_default": null, "remove": []});
+        let action = if i % 2 == 0 {
+            json!({"op": "copy_to", "method": "raw", "recreate": false, "file": true})
+        } else {
+            json!({"op": "copy_profile", "from": src["profiles"][0]["name"], "to": src["default"], "same": false, "method": "raw"})
+        };
+        push(&mut out, case(0, page, src, dst, action, json!({"j": j}), false));
+    }
+    // (e) whole-store copies onto an existing target
+    for i in 0..(6 * mult) {
+        let mut rr = r.fork();
+        let src = gen_store_spec(&mut rr, page, 2 + rr.below(2), false, true);
+        let names: Vec<Value> = src["profiles"].as_array().unwrap().iter().map(|p| p["name"].clone()).collect();
+        let mut dst = json!({"default": names[0], "profiles": [{"name": names[0], "recs": []}], "set_default": null, "remove": []});
+        let mut recreate = false;
+        match i % 6 {
+            0 => {}                                                                                   // empty target: accepted
+            1 => { dst["profiles"][0]["recs"] = Value::Array(gen_recs(&mut rr, 2, false)); }            // first profile non-empty
+            2 => { dst["profiles"].as_array_mut().unwrap().push(json!({"name": names[1], "recs": gen_recs(&mut rr, 1, false)})); } // a later one
+            3 => { dst["default"] = json!("other"); dst["profiles"][0]["name"] = json!("other"); }       // default profile missing
+            4 => { dst["profiles"][0]["recs"] = Value::Array(gen_recs(&mut rr, 2, false)); recreate = true; } // replaced
+            _ => { dst["profiles"].as_array_mut().unwrap().push(json!({"name": "unrelated", "recs": gen_recs(&mut rr, 2, false)})); }
+        }
+        let via = if i % 2 == 0 { "copy_to" } else { "copy_store" };
+        push(&mut out, case(0, page, src, dst, json!({"op": via, "method": methods_q[i % 2], "recreate": recreate, "file": true}), Value::Null, false));
+    }
+    // (f) the configured default profile does not exist in the source (removed, or set to a missing name)
+    for i in 0..(2 * mult.min(2)) {
+        let mut rr = r.fork();
+        let mut src = gen_store_spec(&mut rr, page, 2, false, true);
+        if i % 2 == 0 { src["remove"] = json!([src["default"]]); } else { src["set_default"] = json!("nowhere"); }
+        push(&mut out, case(0, page, src, Value::Null, json!({"op": "copy_to", "method": "raw", "recreate": true, "file": true}), Value::Null, false));
+    }
+    // (g) logically empty target whose expired record shares an identity with a source record
+    for _ in 0..(2 * mult.min(2)) {
+        let mut rr = r.fork();
+        let mut src = gen_store_spec(&mut rr, page, 1, false, true);
+        let recs = gen_recs(&mut rr, 3, false);
+        src["profiles"][0]["recs"] = Value::Array(recs.clone());
+        let mut shadow = recs[1].clone();
+        shadow["e"] = json!(-3_600_000i64);
+        shadow["v"] = json!("00");
+        let dst = json!({"default": "t0", "profiles": [{"name": "t0", "recs": [shadow]}], "set_default": null, "remove": []});
+        push(&mut out, case(0, page, src.clone(), dst, json!({"op": "copy_profile", "from": src["profiles"][0]["name"], "to": "t0", "same": false, "method": "raw"}), Value::Null, false));
+    }
+    // (h) Indy wallets
+    push(&mut out, json!({"kind": "c18:fixture", "id": 0}));
+    let kdfs_q = ["RAW", "RAW", "RAW", "ARGON2I_INT", "RAW", "RAW", "ARGON2I_MOD", "RAW", "RAW", "RAW"];
+    for i in 0..(10 * mult) {
+        let mut rr = r.fork();
+        let n = *rr.pick(&[0usize, 1, 2, 3, 7, 20, 33, 64]);
+        let items = gen_indy_items(&mut rr, n);
+        let kdf = if thorough { ["RAW", "ARGON2I_INT", "RAW", "ARGON2I_MOD"][i % 4] } else { kdfs_q[i % kdfs_q.len()] };
+        let name = *rr.pick(&["wallet-1", "w", "Wällét ✓", "walletwallet.0"]);
+        push(&mut out, json!({"kind": "c18:indy", "id": 0, "kdf": kdf, "name": name, "seed": rr.next() >> 12, "items": items}));
+    }
+    if let Some(c) = count { out.truncate(c); }
+    out
+}
+
+/// Indy records: (type, name) unique; at most one tag per (name, table) — the Indy tag tables are keyed by (name, item)
+fn gen_indy_items(r: &mut Rng, n: usize) -> Vec<Value> {
+    let types = ["Indy::Did", "Indy::Key", "credential", "", "schema-ü", "t\u{0}nul"];
+    let mut seen = BTreeSet::new();
+    let mut out = vec![];
+    for i in 0..n {
+        let c = r.pick(&types).to_string();
+        let mut nm = r.pick(NAMES).to_string();
+        if !seen.insert((c.clone(), nm.clone())) { nm = format!("{}#{}", nm, i); seen.insert((c.clone(), nm.clone())); }
+        let nt = match r.below(6) { 0 => 0, 1 => 1, 2 => 2, 3 => 4, 4 => 9, _ => 1 };
+        let mut tseen = BTreeSet::new();
+        let mut tags = vec![];
+        for _ in 0..nt {
+            let plain = r.chance(1, 2);
+            let tn = r.pick(TAG_NAMES).to_string();
+            if tseen.insert((plain, tn.clone())) {
+                tags.push(json!([if plain { 1 } else { 0 }, tn, *r.pick(TAG_VALUES)]));
+            }
+        }
+        out.push(json!({"c": c, "n": nm, "v": gen_value(r), "t": tags}));
+    }
+    out
+}
+
+// =============================================================================================
+// Store set-up and dumps
+
+fn pass_key_for(method: &str) -> PassKey<'static> {
+    match method {
+        "raw" => PassKey::from(RAW_TARGET_KEY.to_string()),
+        "none" => PassKey::empty(),
+        _ => PassKey::from(KDF_PASS.to_string()),
+    }
+}
+
+fn method_of(method: &str) -> StoreKeyMethod { StoreKeyMethod::parse_uri(method).expect("key method") }
+
+fn file_path(tag: &str, what: &str) -> String {
+    let p = format!("{}/c18-{}-{}.db", scratch_dir(), what, tag);
+    cleanup(&Some(p.clone()));
+    p
+}
+
+fn provision_at(uri: &str, method: &str, profile: &str) -> AnyBackend {
+    let mut last = None;
+    for attempt in 0..20 {
+        match block_on(async { uri.provision_backend(method_of(method), pass_key_for(method), Some(profile.to_string()), true).await }) {
+            Ok(b) => return b,
+            Err(e) => { last = Some(e); std::thread::sleep(std::time::Duration::from_millis(20 * (attempt + 1))); }
+        }
+    }
+    panic!("provision target: {:?}", last)
+}
+
+fn open_at(path: &str, method: &str) -> Result<AnyBackend, askar_storage::Error> {
+    let uri = format!("sqlite://{}", path);
+    block_on(async { uri.as_str().open_backend(Some(method_of(method)), pass_key_for(method), None).await })
+}
+
+/// provision-time profile first, then the others, the records (one transaction per profile), default, removals
+fn fill_store(b: &AnyBackend, spec: &Value) -> Result<(), String> {
+    block_on(async {
+        let default = spec["default"].as_str().unwrap_or("");
+        for p in spec["profiles"].as_array().cloned().unwrap_or_default() {
+            let name = p["name"].as_str().unwrap_or("").to_string();
+            if name != default {
+                b.create_profile(Some(name.clone())).await.map_err(|e| format!("create_profile: {:?}", e))?;
+            }
+            let recs = p["recs"].as_array().cloned().unwrap_or_default();
+            if recs.is_empty() { continue; }
+            let mut s = b.session(Some(name.clone()), true).map_err(|e| format!("session: {:?}", e))?;
+            for x in &recs {
+                let v = value_from_json(&x["v"]);
+                let tags = tags_from_json(&x["t"]).map(|ts| ts.iter().map(Tag::to_entry_tag).collect::<Vec<_>>());
+                s.update(kind_of(x["k"].as_i64().unwrap_or(2)), EntryOperation::Insert, x["c"].as_str().unwrap_or(""), x["n"].as_str().unwrap_or(""),
+                         Some(&v), tags.as_deref(), x["e"].as_i64()).await.map_err(|e| format!("insert: {:?}", e))?;
+            }
+            s.close(true).await.map_err(|e| format!("commit: {:?}", e))?;
+        }
+        if let Some(d) = spec["set_default"].as_str() {
+            b.set_default_profile(d.to_string()).await.map_err(|e| format!("set_default: {:?}", e))?;
+        }
+        for n in spec["remove"].as_array().cloned().unwrap_or_default() {
+            b.remove_profile(n.as_str().unwrap_or("").to_string()).await.map_err(|e| format!("remove_profile: {:?}", e))?;
+        }
+        Ok(())
+    })
+}
+
+fn sort_recs(v: Value) -> Value {
+    let mut a = v.as_array().cloned().unwrap_or_default();
+    a.sort_by_key(|x| (x["k"].as_i64().unwrap_or(0), x["c"].as_str().unwrap_or("").as_bytes().to_vec(), x["n"].as_str().unwrap_or("").as_bytes().to_vec()));
+    Value::Array(a)
+}
+
+/// {"default": name, "profiles": [{"name", "recs": [...sorted by (kind, category, name)]} sorted by name]}
+fn dump_store(b: &AnyBackend) -> Value {
+    let (default, mut names) = block_on(async {
+        (b.get_default_profile().await.map(Value::String).unwrap_or_else(|e| jerr(&e)),
+         b.list_profiles().await.unwrap_or_default())
+    });
+    names.sort_by(|a, b| a.as_bytes().cmp(b.as_bytes()));
+    let profiles: Vec<Value> = names.iter().map(|n| {
+        let recs = match dump_profile(b, n) { Ok(v) => sort_recs(v), Err(e) => jerr(&e) };
+        json!({"name": n, "recs": recs})
+    }).collect();
+    json!({"default": default, "profiles": profiles})
+}
+
+fn close(b: AnyBackend) { block_on(async move { b.close().await.ok(); drop(b); }); }
+
+// =============================================================================================
+// The reference: what the property says the dumps must be, from the case spec alone
+
+/// live logical content per profile of a store built from `spec`
+fn expected_store(spec: &Value) -> BTreeMap<String, Value> {
+    let removed: Vec<String> = spec["remove"].as_array().cloned().unwrap_or_default().iter().map(|x| x.as_str().unwrap_or("").to_string()).collect();
+    let mut m = BTreeMap::new();
+    for p in spec["profiles"].as_array().cloned().unwrap_or_default() {
+        let name = p["name"].as_str().unwrap_or("").to_string();
+        if removed.contains(&name) { continue; }
+        let recs: Vec<Value> = p["recs"].as_array().cloned().unwrap_or_default().iter()
+            .filter(|x| x["e"].as_i64().map_or(true, |e| e > 0))
+            .map(|x| Rec { kind: x["k"].as_i64().unwrap_or(2), cat: x["c"].as_str().unwrap_or("").into(), name: x["n"].as_str().unwrap_or("").into(),
+                           value: value_from_json(&x["v"]), tags: tags_from_json(&x["t"]).unwrap_or_default() }.to_json())
+            .collect();
+        m.insert(name, sort_recs(Value::Array(recs)));
+    }
+    m
+}
+
+fn expected_default(spec: &Value) -> String {
+    spec["set_default"].as_str().or(spec["default"].as_str()).unwrap_or("").to_string()
+}
+
+fn dump_map(d: &Value) -> BTreeMap<String, Value> {
+    d["profiles"].as_array().cloned().unwrap_or_default().iter()
+        .map(|p| (p["name"].as_str().unwrap_or("").to_string(), p["recs"].clone())).collect()
+}
+
+fn ident(x: &Value) -> (i64, String, String) {
+    (x["k"].as_i64().unwrap_or(0), x["c"].as_str().unwrap_or("").into(), x["n"].as_str().unwrap_or("").into())
+}
+
+/// how two record lists differ: lost / extra / changed
+fn diff_class(want: &Value, got: &Value) -> String {
+    let w: BTreeMap<_, _> = want.as_array().cloned().unwrap_or_default().into_iter().map(|x| (ident(&x), x)).collect();
+    let g: BTreeMap<_, _> = got.as_array().cloned().unwrap_or_default().into_iter().map(|x| (ident(&x), x)).collect();
+    let mut c = vec![];
+    if !got.is_array() { c.push("unreadable"); }
+    if w.keys().any(|k| !g.contains_key(k)) { c.push("lost"); }
+    if g.keys().any(|k| !w.contains_key(k)) { c.push("extra"); }
+    if w.iter().any(|(k, x)| g.get(k).map_or(false, |y| y != x)) { c.push("changed"); }
+    if c.is_empty() { c.push("multiplicity"); }
+    c.join("+")
+}
+
+// =============================================================================================
+// c18:copy
+
+fn exec_copy(case: &Value, tag: &str) -> Value {
+    let src_spec = &case["src"];
+    let action = &case["action"];
+    let op = action["op"].as_str().unwrap_or("");
+    let same = action["same"].as_bool().unwrap_or(false);
+    let method = action["method"].as_str().unwrap_or("raw");
+    let src_file = case["src_file"].as_bool().unwrap_or(false) || same;
+    let mut oracle: Vec<Value> = vec![];
+    let mut feat: BTreeMap<String, u64> = BTreeMap::new();
+    let page = case["page"].as_u64().unwrap_or(32) as usize;
+
+    // source
+    let (src, src_path) = provision(src_file, src_spec["default"].as_str().unwrap_or(""), "", &format!("c18s-{}", tag));
+    if let Err(e) = fill_store(&src, src_spec) { panic!("source set-up: {}", e); }
+    let src_before = dump_store(&src);
+    let want_src = expected_store(src_spec);
+    if dump_map(&src_before) != want_src {
+        oracle.push(json!({"sig": "setup:source-dump-differs-from-spec", "got": src_before, "want": want_src}));
+    }
+    let src_rows_before = src_path.as_ref().map(|p| raw_counts(p));
+
+    // pre-existing target
+    let has_dst = !case["dst"].is_null();
+    let target_file = has_dst || action["file"].as_bool().unwrap_or(false);
+    let dst_path = if target_file && !same { Some(file_path(tag, "t")) } else { None };
+    let dst_uri = match &dst_path { Some(p) => format!("sqlite://{}", p), None => "sqlite://:memory:".to_string() };
+    let mut pre: Option<AnyBackend> = None;
+    let mut want_pre: BTreeMap<String, Value> = BTreeMap::new();
+    if has_dst {
+        let b = provision_at(&dst_uri, method, case["dst"]["default"].as_str().unwrap_or(""));
+        if let Err(e) = fill_store(&b, &case["dst"]) { panic!("target set-up: {}", e); }
+        want_pre = expected_store(&case["dst"]);
+        pre = Some(b);
+    }
+    // fault: abort the (j+1)-th row inserted into the target's items table from now on
+    let fault_j = case["fault"]["j"].as_i64();
+    if let (Some(j), Some(p)) = (fault_j, &dst_path) {
+        let raw = RawDb::open(p).expect("raw open");
+        let base = raw.query("SELECT COUNT(*) FROM items", &[]).expect("count")[0][0].as_int();
+        raw.exec(&format!("CREATE TRIGGER verif_fault BEFORE INSERT ON items WHEN (SELECT COUNT(*) FROM items) = {} BEGIN SELECT RAISE(ABORT, 'verif fault'); END", base + j)).expect("install fault");
+    }
+
+    // the action
+    let mut target: Option<AnyBackend> = None;
+    let res: Value = match op {
+        "copy_to" => {
+            // whole-store copy goes to a store of its own: close the handle used for set-up first
+            if let Some(b) = pre.take() { close(b); }
+            let store = Store::from(src.clone());
+            let recreate = action["recreate"].as_bool().unwrap_or(true);
+            let r = block_on(async {
+                match store.copy_to(&dst_uri, method_of(method), pass_key_for(method), recreate).await {
+                    Ok(t) => { t.close().await.ok(); drop(t); Ok(()) }
+                    Err(e) => Err(e),
+                }
+            });
+            block_on(async move { drop(store) });
+            match r { Ok(()) => json!("ok"), Err(e) => json!({"err": format!("{:?}", e.kind())}) }
+        }
+        "copy_store" => {
+            if let Some(b) = pre.take() { close(b); }
+            let recreate = action["recreate"].as_bool().unwrap_or(true);
+            match block_on(async { copy_store(&src, dst_uri.as_str(), method_of(method), pass_key_for(method), recreate).await }) {
+                Ok(t) => { target = Some(t); json!("ok") }
+                Err(e) => jerr(&e),
+            }
+        }
+        "copy_profile" => {
+            let from = action["from"].as_str().unwrap_or("");
+            let to = action["to"].as_str().unwrap_or("");
+            let r = if same {
+                block_on(async { copy_profile(&src, &src, from, to).await })
+            } else {
+                let t = pre.take().expect("copy_profile needs a target store");
+                let r = block_on(async { copy_profile(&src, &t, from, to).await });
+                target = Some(t);
+                r
+            };
+            match r { Ok(()) => json!("ok"), Err(e) => jerr(&e) }
+        }
+        _ => json!({"err": "BadOp"}),
+    };
+    if let (Some(_), Some(p)) = (fault_j, &dst_path) {
+        RawDb::open(p).expect("raw open").exec("DROP TRIGGER IF EXISTS verif_fault").expect("remove fault");
+    }
+
+    // dumps: a file-backed target is always closed and reopened under its own key
+    let dst_dump: Value = if same { Value::Null } else {
+        match (&dst_path, target.take()) {
+            (Some(p), t) => {
+                if let Some(t) = t { close(t); }
+                if std::path::Path::new(p).exists() {
+                    match open_at(p, method) {
+                        Ok(b) => { let d = dump_store(&b); close(b); d }
+                        Err(e) => json!({"open": jerr(&e)}),
+                    }
+                } else { Value::Null }
+            }
+            (None, Some(t)) => { let d = dump_store(&t); close(t); d }
+            (None, None) => Value::Null,
+        }
+    };
+    let src_after = dump_store(&src);
+    let src_rows_after = src_path.as_ref().map(|p| raw_counts(p));
+    close(src);
+    cleanup(&src_path);
+    cleanup(&dst_path);
+
+    // ---------------------------------------------------------------------------------------
+    // the property, judged from the spec
+    let ok = res == "ok";
+    let errk = res["err"].as_str().unwrap_or("").to_string();
+    let src_names: BTreeSet<String> = want_src.keys().cloned().collect();
+    let src_default = expected_default(src_spec);
+    let dangling = !src_names.contains(&src_default);
+    let faulted = fault_j.is_some();
+    *feat.entry(format!("op:{}", op)).or_insert(0) += 1;
+    *feat.entry(format!("method:{}", method)).or_insert(0) += 1;
+    *feat.entry(if ok { "res:ok".to_string() } else { format!("res:err:{}", errk) }).or_insert(0) += 1;
+    *feat.entry("profiles".into()).or_insert(0) += src_names.len() as u64;
+    let mut kinds = BTreeSet::new();
+    for (_, recs) in &want_src {
+        let n = recs.as_array().map_or(0, |a| a.len());
+        *feat.entry("records".into()).or_insert(0) += n as u64;
+        if n > page { *feat.entry("profiles-multi-page".into()).or_insert(0) += 1; }
+        for x in recs.as_array().unwrap() { kinds.insert(x["k"].as_i64().unwrap_or(0)); if !x["t"].as_array().unwrap().is_empty() { *feat.entry("tagged".into()).or_insert(0) += 1; } }
+    }
+    if kinds.len() == 2 { *feat.entry("both-kinds".into()).or_insert(0) += 1; }
+    let spec_expired = src_spec["profiles"].as_array().unwrap().iter().flat_map(|p| p["recs"].as_array().cloned().unwrap_or_default()).filter(|x| x["e"].as_i64().map_or(false, |e| e < 0)).count();
+    if spec_expired > 0 { *feat.entry("expired-in-source".into()).or_insert(0) += 1; }
+
+    // source unchanged
+    if src_after != src_before { oracle.push(json!({"sig": format!("{}:source-changed", op), "before": src_before, "after": src_after})); }
+    if !same && src_rows_before != src_rows_after { oracle.push(json!({"sig": format!("{}:source-rows-changed", op), "before": src_rows_before, "after": src_rows_after})); }
+
+    // which (source profile -> target profile) pairs the action is about
+    let pairs: Vec<(String, String)> = if op == "copy_profile" {
+        vec![(action["from"].as_str().unwrap_or("").to_string(), action["to"].as_str().unwrap_or("").to_string())]
+    } else { src_names.iter().map(|n| (n.clone(), n.clone())).collect() };
+    let recreate = action["recreate"].as_bool().unwrap_or(op != "copy_profile") && op != "copy_profile";
+    let pre_view: BTreeMap<String, Value> = if same { want_src.clone() } else if recreate { BTreeMap::new() } else { want_pre.clone() };
+    let got: BTreeMap<String, Value> = if same { dump_map(&src_after) } else { dump_map(&dst_dump) };
+    let nonempty_target = pairs.iter().any(|(_, t)| pre_view.get(t).map_or(false, |r| r.as_array().map_or(false, |a| !a.is_empty())));
+    let missing_source = pairs.iter().any(|(f, _)| !src_names.contains(f));
+    // an expired record in the target under an identity the source also holds
+    let shadow = !same && !recreate && has_dst && pairs.iter().any(|(f, t)| {
+        let exp: Vec<_> = case["dst"]["profiles"].as_array().unwrap().iter().filter(|p| p["name"].as_str() == Some(t.as_str()))
+            .flat_map(|p| p["recs"].as_array().cloned().unwrap_or_default()).filter(|x| x["e"].as_i64().map_or(false, |e| e < 0)).map(|x| ident(&x)).collect();
+        if !exp.is_empty() { *feat.entry("target-only-expired".into()).or_insert(0) += 1; }
+        want_src.get(f).map_or(false, |r| r.as_array().unwrap().iter().any(|x| exp.contains(&ident(x))))
+    });
+    let target_lacks_default = !same && op != "copy_profile" && has_dst && !recreate && !want_pre.contains_key(&src_default);
+
+    if nonempty_target {
+        *feat.entry("nonempty-target".into()).or_insert(0) += 1;
+        if ok { oracle.push(json!({"sig": format!("{}:nonempty-target-not-refused", op)})); }
+        else if errk != "Input" && !faulted { oracle.push(json!({"sig": format!("{}:nonempty-target-refused-as:{}", op, errk)})); }
+    } else if missing_source {
+        if ok || errk != "NotFound" { oracle.push(json!({"sig": format!("{}:missing-source:err:NotFound->{}", op, if ok { "ok".into() } else { format!("err:{}", errk) })})); }
+    } else if !ok && !faulted && !target_lacks_default {
+        oracle.push(json!({"sig": format!("{}:ok->err:{}{}", op, errk, if shadow { ":expired-shadow-in-target" } else { "" }), "res": res}));
+    }
+    if faulted { *feat.entry(if ok { "fault:not-reached" } else { "fault:reached" }.to_string()).or_insert(0) += 1; }
+
+    if same || !dst_dump.is_null() {
+        if !same && dst_dump.get("open").is_some() {
+            oracle.push(json!({"sig": format!("{}:target-does-not-open", op), "dump": dst_dump}));
+        } else {
+            // every target profile: untouched, or (if it was empty / new) exactly the source's live records
+            for (f, t) in &pairs {
+                let before = pre_view.get(t);
+                let empty_before = before.map_or(true, |r| r.as_array().map_or(true, |a| a.is_empty()));
+                let want_copy = want_src.get(f);
+                match got.get(t) {
+                    None => if ok { oracle.push(json!({"sig": format!("{}:profiles:missing", op), "profile": t})); },
+                    Some(g) => {
+                        let untouched = before.map_or(g.as_array().map_or(false, |a| a.is_empty()), |b| b == g);
+                        let copied = empty_before && want_copy.map_or(false, |w| w == g);
+                        if ok && f != t || ok && !same {
+                            if !copied { oracle.push(json!({"sig": format!("{}:target-content:{}", op, diff_class(want_copy.unwrap_or(&json!([])), g)), "profile": t, "want": want_copy, "got": g})); }
+                        } else if ok && same && f == t {
+                            if !untouched { oracle.push(json!({"sig": format!("{}:self-copy-changed-profile", op), "profile": t})); }
+                        } else if !(untouched || copied) {
+                            oracle.push(json!({"sig": format!("{}:{}partial-profile:{}", op, if faulted { "fault:" } else { "" }, diff_class(before.unwrap_or(&json!([])), g)), "profile": t, "got": g}));
+                        }
+                    }
+                }
+            }
+            // profiles the action is not about keep their content
+            for (n, before) in &pre_view {
+                if pairs.iter().any(|(_, t)| t == n) { continue; }
+                if got.get(n) != Some(before) { oracle.push(json!({"sig": format!("{}:unrelated-profile-changed", op), "profile": n})); }
+            }
+            if ok {
+                let mut want_names: BTreeSet<String> = pre_view.keys().cloned().collect();
+                for (_, t) in &pairs { want_names.insert(t.clone()); }
+                let got_names: BTreeSet<String> = got.keys().cloned().collect();
+                if got_names != want_names {
+                    let extra: Vec<_> = got_names.difference(&want_names).cloned().collect();
+                    let missing: Vec<_> = want_names.difference(&got_names).cloned().collect();
+                    oracle.push(json!({"sig": format!("{}:profiles:{}{}{}", op, if !missing.is_empty() { "missing" } else { "" }, if !extra.is_empty() { "extra" } else { "" },
+                                                      if dangling { ":source-default-profile-does-not-exist" } else { "" }), "extra": extra, "missing": missing}));
+                }
+                if op != "copy_profile" && (recreate || !has_dst) && dst_dump["default"].as_str() != Some(src_default.as_str()) {
+                    oracle.push(json!({"sig": format!("{}:default-profile-not-carried", op), "want": src_default, "got": dst_dump["default"]}));
+                }
+            }
+        }
+    } else if ok && !same {
+        oracle.push(json!({"sig": format!("{}:no-target-to-inspect", op)}));
+    }
+
+    json!({"out": {"res": res, "dst": dst_dump, "src": src_after}, "oracle": oracle, "feat": feat})
+}
+
+fn raw_counts(path: &str) -> Value {
+    let raw = RawDb::open(path).expect("raw open");
+    let q = |sql: &str| raw.query(sql, &[]).map(|r| r[0][0].as_int()).unwrap_or(-1);
+    json!([q("SELECT COUNT(*) FROM items"), q("SELECT COUNT(*) FROM items_tags"), q("SELECT COUNT(*) FROM profiles")])
+}
+
+// =============================================================================================
+// Indy-SDK wallet format: independent writer and reader
+
+struct IndyKeys { keys: [[u8; 32]; 7] } // type, name, value, item_hmac, tag_name, tag_value, tag_hmac
+const K_TYPE: usize = 0; const K_NAME: usize = 1; const K_VALUE: usize = 2; const K_TAG_NAME: usize = 4; const K_TAG_VALUE: usize = 5;
+
+fn c20p(key: &[u8]) -> Chacha20Key<C20P> { Chacha20Key::<C20P>::from_secret_bytes(key).expect("chacha key") }
+
+/// Indy `encrypt_as_searchable` / `encrypt_as_not_searchable` layout: nonce(12) ‖ ciphertext ‖ tag(16)
+fn seal(key: &[u8], nonce: &[u8], pt: &[u8]) -> Vec<u8> {
+    let mut buf = SecretBytes::from_slice(pt);
+    c20p(key).encrypt_in_place(&mut buf, nonce, &[]).expect("encrypt");
+    let mut out = nonce.to_vec();
+    out.extend_from_slice(buf.as_ref());
+    out
+}
+
+fn unseal(key: &[u8], merged: &[u8]) -> Result<Vec<u8>, String> {
+    if merged.len() < 12 + 16 { return Err(format!("merged value too short: {}", merged.len())); }
+    let mut buf = SecretBytes::from_slice(&merged[12..]);
+    c20p(key).decrypt_in_place(&mut buf, &merged[..12], &[]).map_err(|e| format!("{:?}", e))?;
+    Ok(buf.as_ref().to_vec())
+}
+
+fn b58(data: &[u8]) -> String {
+    const A: &[u8] = b"123456789ABCDEFGHJKLMNPQRSTUVWXYZabcdefghijkmnopqrstuvwxyz";
+    let mut digits: Vec<u8> = vec![];
+    for &b in data {
+        let mut carry = b as u32;
+        for d in digits.iter_mut() { carry += (*d as u32) << 8; *d = (carry % 58) as u8; carry /= 58; }
+        while carry > 0 { digits.push((carry % 58) as u8); carry /= 58; }
+    }
+    let mut s: String = data.iter().take_while(|b| **b == 0).map(|_| '1').collect();
+    s.extend(digits.iter().rev().map(|d| A[*d as usize] as char));
+    s
+}
+
+fn b58_decode(s: &str) -> Vec<u8> {
+    const A: &[u8] = b"123456789ABCDEFGHJKLMNPQRSTUVWXYZabcdefghijkmnopqrstuvwxyz";
+    let mut bytes: Vec<u8> = vec![];
+    for c in s.bytes() {
+        let mut carry = A.iter().position(|a| *a == c).expect("base58 digit") as u32;
+        for b in bytes.iter_mut() { carry += (*b as u32) * 58; *b = (carry & 0xff) as u8; carry >>= 8; }
+        while carry > 0 { bytes.push((carry & 0xff) as u8); carry >>= 8; }
+    }
+    let mut out: Vec<u8> = s.bytes().take_while(|c| *c == b'1').map(|_| 0u8).collect();
+    out.extend(bytes.iter().rev());
+    out
+}
+
+/// libsodium `crypto_pwhash_argon2i` as Indy calls it: Argon2i v1.3, 32-byte output, the first 16 salt bytes
+fn indy_master_key(kdf: &str, wallet_key: &str, salt: &[u8]) -> [u8; 32] {
+    let mut out = [0u8; 32];
+    match kdf {
+        "RAW" => { let k = b58_decode(wallet_key); out.copy_from_slice(&k); }
+        _ => {
+            let (mem, time) = if kdf == "ARGON2I_INT" { (32768, 4) } else { (131072, 6) };
+            Argon2::new(wallet_key.as_bytes(), &salt[..16], Params { alg: Algorithm::Argon2i, version: Version::V0x13, mem_cost: mem, time_cost: time })
+                .expect("argon2 params").derive_key_bytes(&mut out).expect("argon2");
+        }
+    }
+    out
+}
+
+/// rmp-serde of Indy's `Keys`: a 7-element array of bin8(32)
+fn msgpack_keys(k: &IndyKeys) -> Vec<u8> {
+    let mut v = vec![0x97u8];
+    for key in &k.keys { v.push(0xc4); v.push(32); v.extend_from_slice(key); }
+    v
+}
+
+fn parse_msgpack_keys(b: &[u8]) -> Result<IndyKeys, String> {
+    if b.len() != 1 + 7 * 34 || b[0] != 0x97 { return Err(format!("unexpected key record: {} bytes, head {:02x?}", b.len(), b.first())); }
+    let mut keys = [[0u8; 32]; 7];
+    for i in 0..7 {
+        let o = 1 + i * 34;
+        if b[o] != 0xc4 || b[o + 1] != 32 { return Err("unexpected key element".into()); }
+        keys[i].copy_from_slice(&b[o + 2..o + 34]);
+    }
+    Ok(IndyKeys { keys })
+}
+
+const INDY_SCHEMA: &str = "
+    CREATE TABLE metadata (id INTEGER NOT NULL, value NOT NULL, PRIMARY KEY(id));
+    CREATE TABLE items(id INTEGER NOT NULL, type NOT NULL, name NOT NULL, value NOT NULL, key NOT NULL, PRIMARY KEY(id));
+    CREATE UNIQUE INDEX ux_items_type_name ON items(type, name);
+    CREATE TABLE tags_encrypted(name NOT NULL, value NOT NULL, item_id INTEGER NOT NULL, PRIMARY KEY(name, item_id),
+        FOREIGN KEY(item_id) REFERENCES items(id) ON DELETE CASCADE ON UPDATE CASCADE);
+    CREATE INDEX ix_tags_encrypted_name ON tags_encrypted(name);
+    CREATE INDEX ix_tags_encrypted_value ON tags_encrypted(value);
+    CREATE INDEX ix_tags_encrypted_item_id ON tags_encrypted(item_id);
+    CREATE TABLE tags_plaintext(name NOT NULL, value NOT NULL, item_id INTEGER NOT NULL, PRIMARY KEY(name, item_id),
+        FOREIGN KEY(item_id) REFERENCES items(id) ON DELETE CASCADE ON UPDATE CASCADE);
+    CREATE INDEX ix_tags_plaintext_name ON tags_plaintext(name);
+    CREATE INDEX ix_tags_plaintext_value ON tags_plaintext(value);
+    CREATE INDEX ix_tags_plaintext_item_id ON tags_plaintext(item_id);";
+
+/// write an Indy wallet holding `items`; returns the wallet key string
+fn write_indy_wallet(path: &str, kdf: &str, seed: u64, items: &[Value]) -> String {
+    let mut r = Rng::new(seed);
+    std::fs::File::create(path).expect("create wallet file");
+    let db = RawDb::open(path).expect("open wallet file");
+    db.exec(INDY_SCHEMA).expect("indy schema");
+    let mut keys = IndyKeys { keys: [[0u8; 32]; 7] };
+    for k in keys.keys.iter_mut() { k.copy_from_slice(&r.bytes(32)); }
+    let salt = r.bytes(32);
+    let wallet_key = if kdf == "RAW" { b58(&r.bytes(32)) } else { format!("pass-{}-ü", r.next() % 1000) };
+    let master = indy_master_key(kdf, &wallet_key, &salt);
+    let keys_enc = seal(&master, &r.bytes(12), &msgpack_keys(&keys));
+    let meta = if kdf == "RAW" { json!({"keys": keys_enc}) } else { json!({"keys": keys_enc, "master_key_salt": salt}) };
+    db.query("INSERT INTO metadata (value) VALUES (?1)", &[Val::Blob(meta.to_string().into_bytes())]).expect("metadata");
+    db.exec("BEGIN").unwrap();
+    // item ids need not be dense
+    let mut id = 1i64;
+    for it in items {
+        id += 1 + (r.below(3) as i64) / 2;
+        let item_key = r.bytes(32);
+        let value = value_from_json(&it["v"]);
+        db.query("INSERT INTO items (id, type, name, value, key) VALUES (?1, ?2, ?3, ?4, ?5)", &[
+            Val::Int(id),
+            Val::Blob(seal(&keys.keys[K_TYPE], &r.bytes(12), it["c"].as_str().unwrap_or("").as_bytes())),
+            Val::Blob(seal(&keys.keys[K_NAME], &r.bytes(12), it["n"].as_str().unwrap_or("").as_bytes())),
+            Val::Blob(seal(&item_key, &r.bytes(12), &value)),
+            Val::Blob(seal(&keys.keys[K_VALUE], &r.bytes(12), &item_key)),
+        ]).expect("insert item");
+        for t in it["t"].as_array().cloned().unwrap_or_default() {
+            let plain = t[0].as_i64().unwrap_or(0) != 0;
+            let name = seal(&keys.keys[K_TAG_NAME], &r.bytes(12), t[1].as_str().unwrap_or("").as_bytes());
+            if plain {
+                db.query("INSERT INTO tags_plaintext (name, value, item_id) VALUES (?1, ?2, ?3)",
+                         &[Val::Blob(name), Val::Text(t[2].as_str().unwrap_or("").to_string()), Val::Int(id)]).expect("insert plaintext tag");
+            } else {
+                let v = seal(&keys.keys[K_TAG_VALUE], &r.bytes(12), t[2].as_str().unwrap_or("").as_bytes());
+                db.query("INSERT INTO tags_encrypted (name, value, item_id) VALUES (?1, ?2, ?3)", &[Val::Blob(name), Val::Blob(v), Val::Int(id)]).expect("insert encrypted tag");
+            }
+        }
+    }
+    db.exec("COMMIT").unwrap();
+    wallet_key
+}
+
+/// independent decode of an Indy wallet file into the logical records (kind = Item)
+fn read_indy_wallet(path: &str, kdf: &str, wallet_key: &str) -> Result<Value, String> {
+    let db = RawDb::open(path)?;
+    let meta_raw = db.query("SELECT value FROM metadata", &[])?.get(0).ok_or("no metadata row")?[0].as_blob();
+    let meta: Value = serde_json::from_slice(&meta_raw).map_err(|e| e.to_string())?;
+    let bytes = |v: &Value| -> Vec<u8> { v.as_array().cloned().unwrap_or_default().iter().map(|x| x.as_u64().unwrap_or(0) as u8).collect() };
+    let salt = bytes(&meta["master_key_salt"]);
+    let master = indy_master_key(kdf, wallet_key, &salt);
+    let keys = parse_msgpack_keys(&unseal(&master, &bytes(&meta["keys"]))?)?;
+    let utf8 = |b: Vec<u8>| String::from_utf8(b).map_err(|e| e.to_string());
+    let mut recs = vec![];
+    for row in db.query("SELECT id, type, name, value, key FROM items", &[])? {
+        let item_key = unseal(&keys.keys[K_VALUE], &row[4].as_blob())?;
+        let mut tags = vec![];
+        for t in db.query("SELECT name, value FROM tags_encrypted WHERE item_id = ?1", &[Val::Int(row[0].as_int())])? {
+            tags.push(Tag { plain: false, name: utf8(unseal(&keys.keys[K_TAG_NAME], &t[0].as_blob())?)?, value: utf8(unseal(&keys.keys[K_TAG_VALUE], &t[1].as_blob())?)? });
+        }
+        for t in db.query("SELECT name, value FROM tags_plaintext WHERE item_id = ?1", &[Val::Int(row[0].as_int())])? {
+            tags.push(Tag { plain: true, name: utf8(unseal(&keys.keys[K_TAG_NAME], &t[0].as_blob())?)?, value: utf8(t[1].as_blob())? });
+        }
+        recs.push(Rec { kind: 2, cat: utf8(unseal(&keys.keys[K_TYPE], &row[1].as_blob())?)?, name: utf8(unseal(&keys.keys[K_NAME], &row[2].as_blob())?)?,
+                        value: unseal(&item_key, &row[3].as_blob())?, tags }.to_json());
+    }
+    Ok(sort_recs(Value::Array(recs)))
+}
+
+/// migrate the wallet file in place with the real code, reopen it with the wallet key, dump it
+fn migrate_and_dump(path: &str, name: &str, wallet_key: &str, kdf: &str) -> (Value, Value) {
+    let r = block_on(async {
+        let m = IndySdkToAriesAskarMigration::connect(path, name, wallet_key, kdf).await?;
+        m.migrate().await
+    });
+    if let Err(e) = r { return (jerr(&e), Value::Null); }
+    let method = match kdf { "RAW" => "raw", "ARGON2I_INT" => "kdf:argon2i:int", _ => "kdf:argon2i:mod" };
+    let uri = format!("sqlite://{}", path);
+    let opened = block_on(async { uri.as_str().open_backend(Some(method_of(method)), PassKey::from(wallet_key.to_string()), None).await });
+    match opened {
+        Err(e) => (json!("ok"), json!({"open": jerr(&e)})),
+        Ok(b) => {
+            let d = dump_store(&b);
+            let active = b.get_active_profile();
+            close(b);
+            let mut d = d;
+            d["active"] = json!(active);
+            (json!("ok"), d)
+        }
+    }
+}
+
+fn leftover_tables(path: &str) -> Vec<String> {
+    let db = match RawDb::open(path) { Ok(d) => d, Err(_) => return vec![] };
+    let mut t: Vec<String> = db.query("SELECT name FROM sqlite_master WHERE type = 'table'", &[]).unwrap_or_default().iter().map(|r| r[0].as_text()).collect();
+    t.sort();
+    t
+}
+
+fn judge_migration(what: &str, res: &Value, dump: &Value, name: &str, want: &Value, oracle: &mut Vec<Value>) {
+    if *res != "ok" { oracle.push(json!({"sig": format!("{}:migrate:ok->err:{}", what, res["err"].as_str().unwrap_or("?")), "res": res})); return; }
+    if dump.get("open").is_some() { oracle.push(json!({"sig": format!("{}:migrated-store-does-not-open-with-wallet-key", what), "dump": dump})); return; }
+    let got = dump_map(dump);
+    if got.len() != 1 || !got.contains_key(name) { oracle.push(json!({"sig": format!("{}:profiles-differ", what), "got": got.keys().collect::<Vec<_>>()})); }
+    if dump["default"].as_str() != Some(name) || dump["active"].as_str() != Some(name) { oracle.push(json!({"sig": format!("{}:default-profile-is-not-the-wallet", what)})); }
+    if let Some(g) = got.get(name) {
+        if g != want { oracle.push(json!({"sig": format!("{}:content:{}", what, diff_class(want, g)), "want": want, "got": g})); }
+    }
+}
+
+fn exec_indy(case: &Value, tag: &str) -> Value {
+    let kdf = case["kdf"].as_str().unwrap_or("RAW");
+    let name = case["name"].as_str().unwrap_or("wallet");
+    let items = case["items"].as_array().cloned().unwrap_or_default();
+    let path = file_path(tag, "indy");
+    let wallet_key = write_indy_wallet(&path, kdf, case["seed"].as_u64().unwrap_or(1), &items);
+    let mut oracle = vec![];
+    let mut feat: BTreeMap<String, u64> = BTreeMap::new();
+    // what the wallet holds, from the spec (the writer's plaintext) and from an independent decode of the file
+    let want = sort_recs(Value::Array(items.iter().map(|it| Rec { kind: 2, cat: it["c"].as_str().unwrap_or("").into(), name: it["n"].as_str().unwrap_or("").into(),
+        value: value_from_json(&it["v"]), tags: tags_from_json(&it["t"]).unwrap_or_default() }.to_json()).collect()));
+    match read_indy_wallet(&path, kdf, &wallet_key) {
+        Ok(d) => if d != want { oracle.push(json!({"sig": "indy:writer-reader-disagree", "want": want, "got": d})); },
+        Err(e) => oracle.push(json!({"sig": "indy:wallet-not-decodable", "err": e})),
+    }
+    let (res, dump) = migrate_and_dump(&path, name, &wallet_key, kdf);
+    judge_migration("indy", &res, &dump, name, &want, &mut oracle);
+    let tables = leftover_tables(&path);
+    if res == "ok" && tables != ["config", "items", "items_tags", "profiles"] { oracle.push(json!({"sig": "indy:schema-after-migration", "tables": tables})); }
+    cleanup(&Some(path));
+    *feat.entry(format!("kdf:{}", kdf)).or_insert(0) += 1;
+    *feat.entry("items".into()).or_insert(0) += items.len() as u64;
+    *feat.entry("tags".into()).or_insert(0) += items.iter().map(|i| i["t"].as_array().map_or(0, |a| a.len()) as u64).sum::<u64>();
+    let out_dump = json!({"default": dump["default"], "profiles": dump["profiles"]});
+    json!({"out": {"res": res, "dump": if dump.get("open").is_some() { dump } else { out_dump }}, "oracle": oracle, "feat": feat})
+}
+
+fn exec_fixture(case: &Value, tag: &str) -> Value {
+    let path = file_path(tag, "fixture");
+    std::fs::copy(FIXTURE, &path).expect("copy fixture");
+    let mut oracle = vec![];
+    let independent = read_indy_wallet(&path, "RAW", FIXTURE_KEY);
+    let (res, dump) = migrate_and_dump(&path, FIXTURE_NAME, FIXTURE_KEY, "RAW");
+    let out_dump = json!({"default": dump["default"], "profiles": dump["profiles"]});
+    match &independent {
+        Ok(want) => judge_migration("fixture", &res, &dump, FIXTURE_NAME, want, &mut oracle),
+        Err(e) => oracle.push(json!({"sig": "fixture:wallet-not-decodable", "err": e})),
+    }
+    // the frozen dump: from the case itself (corpus) or from the corpus file
+    let frozen = if !case["expect"].is_null() { Some(case["expect"].clone()) } else {
+        std::fs::read_to_string(format!("{}/corpus/C18/fixture_dump.json", verif_home())).ok()
+            .and_then(|s| serde_json::from_str::<Value>(s.trim()).ok()).map(|v| v["expect"].clone())
+    };
+    match frozen {
+        Some(f) if !f.is_null() => if f != out_dump { oracle.push(json!({"sig": "fixture:dump-differs-from-frozen", "want": f, "got": out_dump})); },
+        _ => oracle.push(json!({"sig": "fixture:no-frozen-dump"})),
+    }
+    cleanup(&Some(path));
+    let n = independent.as_ref().ok().and_then(|v| v.as_array().map(|a| a.len())).unwrap_or(0);
+    json!({"out": {"res": res, "dump": out_dump}, "oracle": oracle, "feat": {"fixture": 1, "fixture-items": n}})
+}
+
+pub fn exec(case: &Value, tag: &str) -> Value {
+    match case["kind"].as_str().unwrap_or("") {
+        "c18:copy" => exec_copy(case, tag),
+        "c18:indy" => exec_indy(case, tag),
+        "c18:fixture" => exec_fixture(case, tag),
+        k => json!({"out": {"err": format!("unknown kind {}", k)}}),
+    }
 }
